@@ -126,17 +126,61 @@ theorem raisedIn_interleave {ws : List (List CStep)} {l : List CStep} (h : Inter
   | nil => simp [raisedIn]
   | cons _ hs ih => rw [raisedIn_shuffle hs, ih]; simp
 
+/-- the least element is an element and a lower bound -/
+theorem leastOf_spec : ∀ (l : List Nat) (x : Nat), x ∈ l → ∃ m, leastOf l = some m ∧ m ∈ l ∧ ∀ y ∈ l, m ≤ y
+  | [], x, h => by simp at h
+  | e :: es, x, _ => by
+    cases hes : es with
+    | nil => exact ⟨e, by simp [leastOf], by simp, by intro y hy; simp at hy; omega⟩
+    | cons e2 es2 =>
+      obtain ⟨m, hm, hmem, hle⟩ := leastOf_spec es e2 (by rw [hes]; simp)
+      rw [hes] at hm hmem hle
+      refine ⟨min e m, by rw [show leastOf (e :: e2 :: es2) = (match leastOf (e2 :: es2) with | none => some e | some m => some (min e m)) from rfl, hm], ?_, ?_⟩
+      · by_cases h : e ≤ m
+        · rw [Nat.min_eq_left h]; simp
+        · rw [Nat.min_eq_right (by omega)]; exact List.mem_cons_of_mem _ hmem
+      · intro y hy
+        rcases List.mem_cons.mp hy with rfl | hy'
+        · exact Nat.min_le_left _ _
+        · exact Nat.le_trans (Nat.min_le_right _ _) (hle y hy')
+
+/-- the least element depends on the elements only, not on their order -/
+theorem leastOf_congr (l1 l2 : List Nat) (h : ∀ x, x ∈ l1 ↔ x ∈ l2) : leastOf l1 = leastOf l2 := by
+  cases h1 : l1 with
+  | nil =>
+    cases h2 : l2 with
+    | nil => rfl
+    | cons y ys => have := (h y).2 (by rw [h2]; simp); rw [h1] at this; simp at this
+  | cons x xs =>
+    obtain ⟨m1, hm1, hmem1, hle1⟩ := leastOf_spec l1 x (by rw [h1]; simp)
+    obtain ⟨m2, hm2, hmem2, hle2⟩ := leastOf_spec l2 x ((h x).1 (by rw [h1]; simp))
+    have : m1 = m2 := Nat.le_antisymm (hle1 m2 ((h m2).2 hmem2)) (hle2 m1 ((h m1).1 hmem1))
+    rw [← h1, hm1, hm2, this]
+
+/-- **Which error is raised does not depend on the schedule** (after the repair 07e0074): under any two
+    interleavings of the same workers the caller sees the same error — that of the first failing folder in archive
+    order — however many folders fail. -/
+theorem raised_error_schedule_independent {ws : List (List CStep)} {l1 l2 : List CStep}
+    (h1 : Interleave ws l1) (h2 : Interleave ws l2) : afterJoin true l1 = afterJoin true l2 := by
+  simp only [afterJoin, if_true]
+  apply leastOf_congr
+  intro x
+  rw [raisedIn_interleave h1 x, raisedIn_interleave h2 x]
+
+/-- before the repair the first error to reach the queue was raised: two interleavings of the same two failing
+    workers gave different errors -/
+theorem pinned_error_schedule_dependent_ce :
+    afterJoinPinned true [.raise 1, .raise 3] ≠ afterJoinPinned true [.raise 3, .raise 1] ∧
+    afterJoin true [.raise 1, .raise 3] = afterJoin true [.raise 3, .raise 1] := by decide
+
 /-- Worker errors reach the caller (thread mode): if any worker raises, then under every
     interleaving `Worker.extract` raises, and what it raises is an exception some worker raised. -/
 theorem errors_surface_threads {ws : List (List CStep)} {l : List CStep} (h : Interleave ws l)
     (w : List CStep) (hw : w ∈ ws) (e : Nat) (he : e ∈ raisedIn w) :
     ∃ e', afterJoin true l = some e' ∧ ∃ w' ∈ ws, e' ∈ raisedIn w' := by
   have hmem : e ∈ raisedIn l := (raisedIn_interleave h e).2 ⟨w, hw, he⟩
-  cases hl : raisedIn l with
-  | nil => rw [hl] at hmem; simp at hmem
-  | cons e' rest =>
-    refine ⟨e', by simp [afterJoin, hl], ?_⟩
-    exact (raisedIn_interleave h e').1 (by rw [hl]; simp)
+  obtain ⟨m, hm, hmm, _⟩ := leastOf_spec (raisedIn l) e hmem
+  exact ⟨m, by simp [afterJoin, hm], (raisedIn_interleave h m).1 hmm⟩
 
 /-- Process mode as pinned: the exception queue is a thread queue that the child processes do
     not share with the parent, so the caller sees nothing (finding F9). -/
